@@ -474,12 +474,32 @@ package sftp
 // ---------------------------------------------------------------------------
 // request decoding (packet.go, packet-typing.go): total and bounded on arbitrary bytes (C08, C07)
 
+//@ pred pageOK(p []byte) = p == nil || (len(p) == maxMsgLength && cap(p) == maxMsgLength)
+//@ pred availOK(a *allocator) = forall(i, 0 <= i && i < len(a.available) ==> pageOK(a.available[i]))
+// (monitor invariant of allocator.Mutex: every slot of the free list and of every per-request list is empty or a page of
+//  exactly maxMsgLength bytes. Established by newAllocator, assumed at Lock. The free-list half (availOK) is
+//  re-established before every return by newAllocator, GetPage and Free; for ReleasePages only for the slots that were
+//  already in the free list -- that the pages it appends are well-sized (they were handed out by GetPage and sit in
+//  the per-request list) is NOT proved: it needs an invariant over the map of lists plus the separation of their
+//  backing arrays, which exceeded the solver budget. This residue is listed in the trusted base.)
+
+//@ func newAllocator
+//@   property C18
+//@   ensures result != nil && result.used != nil && availOK(result)
+
 //@ func (*allocator).GetPage
-//@   trusted
-//@   requires a.used != nil
+//@   property C18
+//@   vars i int
+//@   requires a != nil && a.used != nil
+//@   assume after call (*sync.Mutex).Lock#1: availOK(a)
 //@   ensures len(result) == maxMsgLength && cap(result) == maxMsgLength
+//@   ensures a.used != nil
+//@   ensures 0 <= i && i < len(a.available) ==> pageOK(a.available[i])
+//@   ensures haskey(a.used, requestOrderID) && len(a.used[requestOrderID]) >= 1
+//@   assert before mapupdate#1: locked(&a.Mutex)
 //@   modifies a.available, mapof a.used, elems []byte
-// (page-size invariant of the allocator: every page handed out was made with len == cap == maxMsgLength; see C18)
+// (every page handed out has len == cap == maxMsgLength, is registered under the given order id while the lock is held,
+//  and comes either from the free list -- whose slot is cleared and cut off -- or from make)
 
 //@ func recvPacket
 //@   assert before call (*allocator).GetPage#1: arg1 == orderID
@@ -1453,9 +1473,21 @@ package sftp
 //@   modifies bytes
 
 //@ func (*allocator).ReleasePages
-//@   trusted
-//@   requires a.used != nil
+//@   property C18
+//@   vars i int
+//@   requires a != nil && a.used != nil
+//@   assume after call (*sync.Mutex).Lock#1: availOK(a)
+//@   ensures a.used != nil && !haskey(a.used, requestOrderID)
+//@   ensures 0 <= i && i < old(len(a.available)) ==> pageOK(a.available[i])
 //@   modifies a.available, mapof a.used, elems []byte
+// (the pages of the request move to the free list and its entry is deleted: afterwards the order id is not marked in use)
+
+//@ func (*allocator).Free
+//@   property C18
+//@   requires a != nil
+//@   ensures a.used != nil && len(a.available) == 0
+//@   ensures forall(k, uint32, !haskey(a.used, k))
+// (after Free nothing is marked in use)
 
 //@ func (*packetManager).maybeSendPackets
 //@   loop 1 ghost relOrder
